@@ -24,6 +24,9 @@ def gen_case(rng):
         extra.append((p, rng.choice([1, 1, 2, 3])))
     if enc in ('utf-8',):
         extra.append((rng.choice(['pässword', 'пароль 1', '😀 ok', 'naïve ']), rng.choice([1, 2])))
+        extra.append((rng.choice(['€uro2024', '中文pass1', '…dots99', 'ﬁsh', '€']), rng.choice([1, 2])))          # first byte 0xE2-0xEF: hex text starting with E / e
+    if enc in ('latin-1', 'cp1252'):
+        extra.append((rng.choice(['été99', 'île1', 'àpass', 'ï']), rng.choice([1, 2])))                         # first byte 0xE0-0xEF
     items = [(p, k) for p, k in items + extra if trainlists.encodable(p, enc)]
     rng.shuffle(items)
     # junk lines: (kind, payload) placed after item index i
@@ -89,7 +92,12 @@ def render(case, mode, rng):
     lines = []
     def pw_bytes(pw):
         hx = mode in ('hex', 'prefixhex') or (mode == 'mix' and rng.random() < 0.5) or must_hex(pw)
-        return (b'$HEX[' + pw.encode(enc).hex().encode() + b']') if hx else pw.encode(enc)
+        if not hx:
+            return pw.encode(enc)
+        hd = pw.encode(enc).hex()
+        r = rng.random()          # hex digits in either case (bytes.fromhex takes both)
+        hd = hd.upper() if r < 0.35 else (''.join(c.upper() if rng.random() < 0.5 else c for c in hd) if r < 0.5 else hd)
+        return b'$HEX[' + hd.encode() + b']'
     junk_at = {}
     for j in case['junk']:
         junk_at.setdefault(j[0], []).append(j)
